@@ -124,10 +124,70 @@ func isHiddenCall(in ssa.Instruction) *ssa.Call {
 	if !ok {
 		return nil
 	}
-	if f := c.Call.StaticCallee(); f != nil && f.Name() == "IsHidden" && strings.Contains(funcName(f), "staticfiles.FileServer") {
+	isIt := func(f *ssa.Function) bool {
+		if f == nil {
+			return false
+		}
+		if f.Name() == "IsHidden" && strings.Contains(funcName(f), "staticfiles.FileServer") {
+			return true
+		}
+		// the bound-method wrapper of a method value fs.IsHidden
+		if f.Synthetic != "" && strings.HasPrefix(f.Name(), "IsHidden$bound") {
+			for _, in := range callsToNamed(f, "IsHidden") {
+				if g := callOf(in).StaticCallee(); g != nil && strings.Contains(funcName(g), "staticfiles.FileServer") {
+					return true
+				}
+			}
+		}
+		return false
+	}
+	if isIt(c.Call.StaticCallee()) {
 		return c
 	}
+	// a call through a function-typed struct field that is only ever given the method value fs.IsHidden
+	if ld, ok := c.Call.Value.(*ssa.UnOp); ok && !c.Call.IsInvoke() {
+		if fa, ok := ld.X.(*ssa.FieldAddr); ok && theProgram != nil {
+			n, okAll := 0, true
+			for _, fn := range theProgram.ModFuncs() {
+				allInstrs(fn, func(x ssa.Instruction) {
+					st, isSt := x.(*ssa.Store)
+					if !isSt {
+						return
+					}
+					fa2, isFA := st.Addr.(*ssa.FieldAddr)
+					if !isFA || fa2.Field != fa.Field || !types.Identical(fa2.X.Type(), fa.X.Type()) {
+						return
+					}
+					n++
+					mc, isMC := st.Val.(*ssa.MakeClosure)
+					if !isMC {
+						okAll = false
+						return
+					}
+					if g, _ := mc.Fn.(*ssa.Function); !isIt(g) {
+						okAll = false
+					}
+				})
+			}
+			if n > 0 && okAll {
+				return c
+			}
+		}
+	}
 	return nil
+}
+
+// callsToNamed: call instructions in f whose static callee has the given name.
+func callsToNamed(f *ssa.Function, name string) []ssa.Instruction {
+	var out []ssa.Instruction
+	allInstrs(f, func(in ssa.Instruction) {
+		if c := callOf(in); c != nil {
+			if g := c.StaticCallee(); g != nil && g.Name() == name {
+				out = append(out, in)
+			}
+		}
+	})
+	return out
 }
 
 // hiddenFalseEdges: edges on which IsHidden(x) returned false, for IsHidden calls whose argument satisfies argOK.
